@@ -45,6 +45,26 @@ def run_level_shard(mod, shard, tier, depth_limit):
     _, histories = shard
     res = {"states": 0, "transitions": 0, "evaluations": 0, "distinct_nontrivial": 0, "violations": [], "samples": [],
            "outcomes": {}, "traces_validated_against_impl": 0, "successors": []}
+    if shard[0] == "witness":
+        # the recorded witness of a known finding: its last request is examined as a transition, the model it gives as a state
+        for start, labels in histories:
+            labels = tuple(labels)
+            if not labels:
+                continue
+            parent = mgraph.build((start, labels[:-1]))
+            if parent is None:
+                continue
+            m2, outcome = mgraph.apply(parent, labels[-1])
+            res["transitions"] += 1
+            fails = list(mod.check_transition((start, labels[:-1]), parent, labels[-1], m2, outcome, tier)) if hasattr(mod, "check_transition") else []
+            if m2 is not None:
+                res["states"] += 1
+                res["evaluations"] += 1
+                fails += list(mod.check_state((start, labels), m2, tier)[0])
+            for f in fails[:60]:
+                res["violations"].append({"history": [start, list(labels)], "what": f"[{start} -> {' -> '.join(labels)}] {f}",
+                                          "class": mod.classify_text(f)})
+        return res
     for hist in histories:
         start, labels = hist
         model = mgraph.build((start, tuple(labels)))
